@@ -84,6 +84,8 @@ func vfConnOutcome(err error, echoed string, want string) string {
 		// the scripted node only ever sends well-formed answers: the caller was handed bytes that are
 		// not the response to its request
 		return "garbled"
+	case strings.Contains(err.Error(), "vfpanic"):
+		return "panic"
 	case strings.Contains(err.Error(), "no compressor available"):
 		return "frameerr"
 	case strings.Contains(err.Error(), "injected frame build failure"):
@@ -270,6 +272,12 @@ func vfRunConnScenario(cfg vfConnScenarioCfg) (events []map[string]interface{}, 
 			echoed string
 		)
 		ok, dump := vfWithin(8*time.Second, func() {
+			defer func() {
+				// a panic in the caller's goroutine is an outcome the property does not allow
+				if r := recover(); r != nil {
+					xerr = fmt.Errorf("vfpanic: %v", r)
+				}
+			}()
 			fr, xerr = conn.exec(ctx, fb, nil)
 			if xerr == nil {
 				if id%2 == 0 {
